@@ -11,8 +11,8 @@ COMMON = ["-generate_fakeroot", "-fakeroot_name=device", "-generate_getters", "-
 
 # name -> (yang files, flags, properties of the configuration)
 CONFIGS = {
-    "vmain_u": (["v-main.yang", "v-types.yang", "v-defu.yang"], ["-generate_simple_unions"], {"compress": False, "wrapper_unions": False}),
-    "vmain_w": (["v-main.yang", "v-types.yang"], [], {"compress": False, "wrapper_unions": True}),
+    "vmain_u": (["v-main.yang", "v-types.yang", "v-defu.yang", "a-zones.yang"], ["-generate_simple_unions"], {"compress": False, "wrapper_unions": False}),
+    "vmain_w": (["v-main.yang", "v-types.yang", "a-zones.yang"], [], {"compress": False, "wrapper_unions": True}),
     "voc_c": (["v-oc.yang"], ["-generate_simple_unions", "-compress_paths"], {"compress": True, "wrapper_unions": False}),
     "voc_s": (["v-oc.yang"], ["-generate_simple_unions", "-compress_paths", "-prefer_operational_state"],
               {"compress": True, "wrapper_unions": False, "prefer_state": True}),
@@ -20,7 +20,7 @@ CONFIGS = {
               {"compress": True, "wrapper_unions": False, "shadow": True}),
     # a second revision of v-main whose enumeration `color` has different members: two generated
     # packages in one process then define a same-named Go enum type with different tables
-    "vmain_r2": (["@rev2/v-main.yang", "v-types.yang", "v-defu.yang"], ["-generate_simple_unions"], {"compress": False, "wrapper_unions": False, "rev2": True, "go_package:vmain_u": True}),
+    "vmain_r2": (["@rev2/v-main.yang", "v-types.yang", "v-defu.yang", "a-zones.yang"], ["-generate_simple_unions"], {"compress": False, "wrapper_unions": False, "rev2": True, "go_package:vmain_u": True}),
     "voc_u": (["v-oc.yang"], ["-generate_simple_unions"], {"compress": False, "wrapper_unions": False}),
     "vlref_u": (["v-lref.yang"], ["-generate_simple_unions"], {"compress": False, "wrapper_unions": False, "lrefp": True, "private": True}),
     "vcolon_u": (["v-colon.yang"], ["-generate_simple_unions"], {"compress": False, "wrapper_unions": False, "colon": True, "private": True}),
